@@ -957,6 +957,12 @@ func suiteLiterals(r *Rng, n int, thorough bool, o *Out) {
 		// (not a silent fall-back to the soft type: a third of the suite would go unrun)
 		panic("literals: BuildType does not build the declared type from its struct")
 	}
+	// ... and the same type once more from a struct whose ID has a defined string type
+	sC := &jsonapi.Schema{}
+	if bt, err := jsonapi.BuildType(reflect.New(structTypeForID(typ, 2)).Interface()); err == nil && sxType(stripNewFunc(bt)) == sxType(typ) {
+		putType(sC, bt)
+	}
+	intoStruct := 0
 	force := 0 // 1: into the soft type, 2: into the struct-built type, 0: drawn
 	emitOne := func(name, lit string) {
 		a := typ.Attrs[name]
@@ -964,6 +970,9 @@ func suiteLiterals(r *Rng, n int, thorough bool, o *Out) {
 		s, ssx := s, ssx
 		if ssxB != "" && (force == 2 || (force == 0 && r.chance(1, 3))) {
 			s, ssx = sB, ssxB
+			if intoStruct++; intoStruct%2 == 0 && len(sC.Types) == 1 {
+				s = sC // (the model is told the same schema: the two structs declare one type)
+			}
 			o.stat("into-struct")
 		}
 		obs, pv, res := runUnmarshalRes("UnmarshalResource", data, s, false)
